@@ -26,6 +26,24 @@ def main(path):
         print("re-run: put `const C: %s = %s;` / `fn f() -> %s { %s }` in a file and use cairo-run"
               % (d["type"], d["expression"], d["type"], d["expression"]))
         return 0
+    if d.get("kind") == "statement bytecode ranges":
+        # compile the recorded source again and compare recorded ranges with instruction sizes
+        import tempfile
+        import check
+        common.build_tool()
+        with tempfile.TemporaryDirectory() as td:
+            src = os.path.join(td, "replay_src.cairo")
+            open(src, "w").write(d["source_text"])
+            out = os.path.join(td, "replay_src.json")
+            ok, err = common.dump(src, d.get("config") or {}, out)
+            if not ok:
+                print("compilation failed:", err[-1500:])
+                return 2
+            notes = check.static_ranges(out)
+        print("property:", d.get("property"), "statement bytecode ranges;", len(notes), "mismatches")
+        for n in notes[:20]:
+            print("  ", n.split(": ", 1)[1])
+        return 0
     common.build_tool()
     src = d["source"]
     cands = d.get("candidate") or d.get("witness")
